@@ -58,6 +58,18 @@ func runS22(c *core.Ctx) {
 							}
 						}
 					case *ast.BinaryExpr:
+						// `1 << (c & 63)`: masking the shift count folds bytes >= 64 onto the blanks
+						if x.Op == token.SHL {
+							if cnt, ok := ast.Unparen(x.Y).(*ast.BinaryExpr); ok && (cnt.Op == token.AND || cnt.Op == token.REM) {
+								if v, isC := p.ConstInt(cnt.Y); isC && (v == 63 || v == 64) {
+									k++
+									n++
+									c.Analysed(fn)
+									c.Bad(fn+"/blank-mask-shift#"+itoa(k), x.Pos(), "`%s` masks the shift count of a bit-mask test: a shift by 64 or more yields 0 in Go, which is what rejects bytes >= 64; with the count reduced modulo 64, 'I', 'J', 'M', '`', 0x89 ... test like \\t, \\n, \\r and space", exprStr(x))
+								}
+							}
+							return true
+						}
 						switch x.Op {
 						case token.LSS, token.LEQ, token.GTR, token.GEQ:
 						default:
